@@ -34,6 +34,8 @@ impl StrTendril {
     #[verifier::external_body]
     pub fn new() -> (r: StrTendril) ensures r@ == Seq::<char>::empty() { unimplemented!() }
     #[verifier::external_body]
+    pub fn clone(&self) -> (r: StrTendril) ensures r@ == self@ { unimplemented!() }
+    #[verifier::external_body]
     pub fn from_char(c: char) -> (r: StrTendril) ensures r@ == seq![c] { unimplemented!() }
     #[verifier::external_body]
     pub fn from_slice(s: &str) -> (r: StrTendril) ensures r@ == s@ { unimplemented!() }
